@@ -165,7 +165,9 @@ MANIFEST = {
             "every consumer; storms cancel real Value/Collection subscriptions (incl. PullID, lossy, consumers that "
             "stopped receiving) at random instants with writers running and check closure, writer progress, PullID "
             "ending on removal and goroutine termination. A process crash (send on closed channel) is attributed to the "
-            "running case and reported as a violation.",
+            "running case and reported as a violation. Storms also contain consumers that walk away after cancelling "
+            "(goroutines must end, the channel is closed once they have) and a churn phase (subscribers cancelling and "
+            "registering while a writer writes): whoever registered and never cancelled receives the last write.",
     "note": "Trusted base: TLC; hook placement; goroutine census by runtime.Stack (library frames only). Liveness is "
             "checked on the model; on the code it is observed with generous wall-clock bounds (5-8 s) whose expiry is a "
             "violation only for the clauses that say 'closes' / 'does not stall'.",
